@@ -57,7 +57,7 @@ func init() {
 		Explorer: "E1 deviation-bounded exhaustive input enumeration, recover() oracle + worker survival",
 		Rule: "each distinct string is one state, given to ValidateLicenses([s]), ExtractLicenses(s), Satisfies(s,[MIT]), Satisfies(MIT,[s]) (4 transitions); " +
 			"spaces: all token sequences <= L (loose+tight), all trees <= n leaves over term forms (full+minimal parens) with every byte prefix, every token edit at distance <= k, every single-byte substitution, " +
-			"every listed id against its neighbours by name (predecessor, successor, ids whose text is a prefix of it) as single terms with '+' on neither / either / both side; all byte strings <= 2 over 256 values and <= m over a 40-byte alphabet, scaling families, slice shapes; non-trivial = distinct strings that are not valid expressions (malformed input is where a parser can fall over) ",
+			"allowed lists of <= 2 (thorough 3) entries over the 5-7 ways of writing one license x each of those as expression; every listed id against its neighbours by name (predecessor, successor, ids whose text is a prefix of it) as single terms with '+' on neither / either / both side; all byte strings <= 2 over 256 values and <= m over a 40-byte alphabet, scaling families, slice shapes; non-trivial = distinct strings that are not valid expressions (malformed input is where a parser can fall over) ",
 		Assumptions: []string{
 			"a panic is observed by recover() around the exported call; fatal runtime errors are observed as worker deaths and attributed through the journal",
 			"strings are deduplicated by a 64-bit hash per worker (collision probability < 1e-5 over the whole run)",
@@ -427,6 +427,49 @@ func c03Run(c *Ctx) {
 			return true
 		})
 	}
+
+	// (4b') allowed lists made of the different ways of writing ONE license (x, x+, x-only, x WITH e ...):
+	// sort comparators and de-duplication meet nodes that are equal in some fields and differ in others
+	vl := 2
+	if thorough {
+		vl = 3
+	}
+	for vi, x := range variantIDs {
+		v := idVariants(x)
+		for l := 1; l <= vl; l++ {
+			var li int64
+			forSeqs(len(v), l, &li, func(i int64, sq []int) bool {
+				if !c.Mine(i+int64(vi)) || c.Expired() {
+					return !c.Expired()
+				}
+				list := make([]string, l)
+				for k, a := range sq {
+					list[k] = v[a]
+				}
+				if !c.Begin(fmt.Sprintf("variant lists %q", list)) {
+					return true
+				}
+				c.Inc("states")
+				c.Inc("evaluations")
+				for _, e := range v {
+					c.Inc("transitions")
+					if r := Sat(e, list); r.Panic != "" {
+						key := "Satisfies | " + r.Panic
+						k := c03Case{Fn: "Satisfies", Expr: e, List: list}
+						c.Report(Violation{Kind: "c03.call", Class: key, Key: key, Size: len(e) + 10*l, Msg: fmt.Sprintf("Satisfies panics on %q with allowed list %q: %s", e, list, r.Panic), Case: mustJSON(k), GoTest: goCall(k)})
+						c.Outcome("panic")
+					}
+				}
+				c.Inc("transitions")
+				if r := Val(list); r.Panic != "" {
+					key := "ValidateLicenses | " + r.Panic
+					c.Report(Violation{Kind: "c03.call", Class: key, Key: key, Size: 10 * l, Msg: fmt.Sprintf("ValidateLicenses panics on %q: %s", list, r.Panic), Case: mustJSON(c03Case{Fn: "ValidateLicenses", List: list})})
+				}
+				return true
+			})
+		}
+	}
+	c.Bound("variant_lists", map[string]any{"licenses": variantIDs, "max_len": vl})
 
 	// (4c) the single-term comparison path for every listed id against the ids nearest to it by name
 	// (predecessor / successor in sorted order, ids whose text is a prefix of it), '+' on neither, either, both
